@@ -142,7 +142,9 @@ impl XCompoundSpec {
             if let Some(bound) = bind.get(name) {
                 ret.push(bound.clone());
             } else {
-                ret.push(Arc::new(XType::XGeneric(*name)));
+                // nothing was supplied for this parameter (a variant that does not mention it, or an
+                // error argument): like the element type of an empty container, it fits anything
+                ret.push(X_UNKNOWN.clone());
             }
         }
         ret
